@@ -98,6 +98,27 @@ def run_on(fb, chk, tag=""):
             good = cfg.all_paths_pass_through(nxt, cfg.returns, set(coll) | zero_blocks | err_blocks)
         chk.check(good and bool(coll), "O1", tag + "recv:no-early-exit", "no return between the receive and the wrapping",
                   "a path returns after descriptors were received but before they are wrapped (they would leak)", f.loc())
+    # every other raw receive passes an EMPTY descriptor buffer (the kernel then installs no descriptor at all):
+    # a site that offers room for descriptors must be the wrapping site checked above
+    nother = 0
+    for g in workspace_fns(fb):
+        if g.key == f.key:
+            continue
+        for gb, gt in g.calls():
+            gc = callee_of(gt)
+            if gc is None or gc.get("name") != "recv_with_fds":
+                continue
+            nother += 1
+            gm = must_of(fb, g)
+            a = gm.sym.arg_terms(gb)
+            buf = a[2] if len(a) > 2 else None
+            x = buf
+            while x is not None and x[0] in ("cast", "ref", "deref"):
+                x = x[1]
+            empty = x is not None and x[0] == "array" and len(x[1]) == 0
+            chk.check(empty, "O1", "%srecv:other-site:%s" % (tag, g.short), "raw receive with an empty descriptor buffer",
+                      "%s receives with room for descriptors (%s) but is not the function that wraps them into File: "
+                      "descriptors installed by this receive are never closed" % (g.short, show(buf)[:60] if buf else "?"), g.loc(gt["line"]))
     # ------------------------------------------------------------------ O2 / O3 / O4
     for g in workspace_fns(fb):
         gm = None
